@@ -539,6 +539,22 @@ let rec run toks =
   | "attached" :: a :: _ ->
     if not (Hashtbl.mem edge_ids a) then raise Unsupported;
     emit (if edge_attached a then "attached 1" else "attached 0 node=0")
+  | "unary" :: r :: fn :: _ :: a :: _
+    when (match forest_of_edge a, Hashtbl.find_opt fors fn with
+        | Some fan, Some fr ->
+          (match Hashtbl.find_opt fors fan with
+           | Some fa when edge_attached a && fa.fdom = fr.fdom ->
+             (* unary operations check the variable orders at every call as well
+                (Precheck.precheck with both operands the argument) *)
+             let desc f = { fd_dom = O; fd_rel = false;
+                            fd_order = List.map nat_of_int (Array.to_list f.order) } in
+             (match precheck ShSame (desc fa) (desc fa) (desc fr) with
+              | Some c -> ocaml_string c = "INVALID_OPERATION"
+              | None -> false)
+           | _ -> false)
+        | _ -> false) ->
+    Hashtbl.remove edges r; Hashtbl.remove evtabs r; Hashtbl.remove idxsets r;
+    raise (Err "INVALID_OPERATION")
   | "unaryinto" :: x :: _ :: a :: _ ->
     (* a detached edge as the operand or the result of a unary operation is rejected *)
     let detached n = Hashtbl.mem edge_ids n && not (edge_attached n) in
